@@ -92,10 +92,29 @@ Definition drain_ops (peers : list nat) (nmsgs batch : nat) : list xop :=
   flat_map (fun p => repeat (OWriter (node p) batch) (S (nmsgs / S batch)) ++
                      repeat (OReader (node p)) (S (nmsgs / S batch))) peers.
 
+(* the canonical schedule works through the sends in chunks (send a chunk, let
+   router, writers and readers drain it), so that no queue of the machine grows
+   with the length of the run: by [up_exactly_once_in_order] every schedule
+   delivers the same per-target sequences *)
+Fixpoint chunks {A} (fuel n : nat) (l : list A) : list (list A) :=
+  match fuel, l with
+  | 0, _ | _, [] => []
+  | S fuel', _ => firstn (S n) l :: chunks fuel' n (skipn (S n) l)
+  end.
+
+Definition chunked_ops (peers : list nat) (batch : nat) (sends : list xdlv) : list xop :=
+  flat_map (fun ch => map OSend ch ++ drain_ops peers (length ch) batch) (chunks (length sends) 255 sends).
+
 Definition up_ops (c : up_case) : list xop :=
   let sends := up_sends (u_targets c) (u_senders c) 0 (u_per c) in
-  map (fun p => OPeer (node p) true) (u_peers c) ++ map OSend sends ++
-  drain_ops (u_peers c) (length sends) (u_batch c).
+  map (fun p => OPeer (node p) true) (u_peers c) ++ chunked_ops (u_peers c) (u_batch c) sends.
+
+(* the harness reports what a recording actor saw projected per sender and
+   run-length encoded: (sender, first seq, count, Sender() ok), consecutive
+   sequence numbers stepping by [stride] (the number of targets) *)
+Definition expand_runs (stride : nat) (runs : list (nat * nat * nat * bool)) : list seen :=
+  flat_map (fun r : nat * nat * nat * bool =>
+              let '(i, j0, n, ok) := r in map (fun k => (i, j0 + k * stride, ok)) (seq 0 n)) runs.
 
 (* what the actor (p, t) received according to the machine's state *)
 Definition seen_at (senders : list bool) (s : xstate) (pt : nat * nat) : list seen :=
@@ -168,7 +187,7 @@ Definition down_state1 (c : down_case) : xstate :=
 
 Definition down_state2 (c : down_case) : xstate :=
   let sends := up_sends (d_ts c) (d_senders c) (d_m c) (d_n c) in
-  xrun (OPeer (node 1) true :: map OSend sends ++ drain_ops [1] (length sends) 0) (down_state1 c).
+  xrun (OPeer (node 1) true :: chunked_ops [1] 63 sends) (down_state1 c).
 
 Definition dead_view (l : list xdlv) : list (nat * nat * nat) :=
   map (fun d : xdlv => (hd 0 (snd (s_target d)), fst (s_msg d), snd (s_msg d))) l.
@@ -204,6 +223,37 @@ Definition oracle_down (c : down_case) : bool :=
   Nat.eqb (d_got1 c) 0 &&
   exactly_once_in_order (d_ts c) ns (d_m c) (d_n c) (d_got2 c) &&
   Nat.eqb (d_dead2 c) 0 && Nat.eqb (d_unreach2 c) 0.
+
+(** * scenario "reconnect": the peer is restarted on its address while senders
+    keep sending bursts.  Which messages a lost connection swallows is a
+    matter of timing (the machine drops what sits in the dead writer's inbox,
+    the code also what was on the wire); what can be demanded of what does
+    arrive, over all incarnations of the peer in turn: per sender no message
+    twice and none before an earlier one.  A message is (burst, number in
+    burst); the observation is per sender the run-length encoding of its
+    arrivals: (burst, first number, count). *)
+
+Record reconnect_case := {
+  k_bursts : nat;                       (* bursts per sender *)
+  k_per : nat;                          (* messages per burst *)
+  k_got : list (list (nat * nat * nat)) (* per sender *)
+}.
+
+(* strictly increasing in (burst, number), everything within the programme *)
+Fixpoint runs_increasing (bursts per : nat) (last : option (nat * nat)) (runs : list (nat * nat * nat)) : bool :=
+  match runs with
+  | [] => true
+  | (b, j0, n) :: rest =>
+      Nat.ltb 0 n && Nat.ltb b bursts && Nat.leb (j0 + n) per &&
+      match last with
+      | None => true
+      | Some (b', j') => Nat.ltb b' b || (Nat.eqb b' b && Nat.ltb j' j0)
+      end &&
+      runs_increasing bursts per (Some (b, j0 + n - 1)) rest
+  end.
+
+Definition oracle_reconnect (c : reconnect_case) : bool :=
+  forallb (runs_increasing (k_bursts c) (k_per c) None) (k_got c).
 
 (** * scenario "stop" *)
 
@@ -393,13 +443,20 @@ Definition oracle_race (c : race_case) : bool := forallb no_blackhole_obs (r_ter
 
 (** * cases, report *)
 
-Inductive case := KUp (c : up_case) | KDown (c : down_case) | KStop (c : stop_case) | KRace (c : race_case).
+Inductive case := KUp (c : up_case) | KDown (c : down_case) | KStop (c : stop_case) | KRace (c : race_case)
+                | KReconnect (c : reconnect_case).
 
 Definition corr (c : case) : bool :=
-  match c with KUp c => corr_up c | KDown c => corr_down c | KStop c => corr_stop c | KRace c => corr_race c end.
+  match c with
+  | KUp c => corr_up c | KDown c => corr_down c | KStop c => corr_stop c | KRace c => corr_race c
+  | KReconnect c => oracle_reconnect c   (* the machine does not predict what a lost connection swallows: the tie is the predicate *)
+  end.
 
 Definition oracle (c : case) : bool :=
-  match c with KUp c => oracle_up c | KDown c => oracle_down c | KStop c => oracle_stop c | KRace c => oracle_race c end.
+  match c with
+  | KUp c => oracle_up c | KDown c => oracle_down c | KStop c => oracle_stop c | KRace c => oracle_race c
+  | KReconnect c => oracle_reconnect c
+  end.
 
 (* known finding class 12 (D12): the tree has the pinned order of statements
    and a black-holed terminal state was reached *)
@@ -433,6 +490,9 @@ Definition branches (c : case) : list nat :=
       tag (has_sub (s_calls c) CStart CStart false) 20 ++ tag (has_sub (s_calls c) CStop CStop false) 21 ++
       tag (has_sub (s_calls c) CStop CStart false) 22 ++
       tag (match s_calls c with CStop :: _ => true | _ => false end) 23
+  | KReconnect c =>
+      tag (existsb (fun g => Nat.ltb 1 (length g)) (k_got c)) 40 ++
+      tag (existsb (fun g => Nat.ltb 0 (length g)) (k_got c)) 41
   | KRace c =>
       tag (negb (oracle_race c)) 30 ++
       tag (match model_terminals (r_order c) (r_senders c) (r_drop c) with
@@ -463,7 +523,7 @@ Definition eval (c : case) : bool * bool * list nat * list nat :=
 
 Lemma eval_spec c : eval c = (corr c, oracle c, known c, branches c).
 Proof.
-  destruct c as [u|d|st|r]; [reflexivity|reflexivity|reflexivity|].
+  destruct c as [u|d|st|r|k]; [reflexivity|reflexivity|reflexivity| |reflexivity].
   unfold eval, corr, oracle, known, branches, corr_race.
   generalize (model_terminals (r_order r) (r_senders r) (r_drop r)) as mt.
   generalize (oracle_race r) as ok. intros ok mt. reflexivity.
